@@ -160,6 +160,44 @@ C09_Applied(S, T, v, nx, out) ==
                 /\ T.veh[v].tgt = nx.tgt /\ T.veh[v].plug = nx.plug))
   THEN {V("C09", "applied_enters_activity", nx.act, v)} ELSE {}
 
+\* ... "with all of its side effects": what a vehicle holds by virtue of its activity - a plug, a place in a
+\* queue, a stall, the assignment of a request - exists, was taken by the instruction that put it there and what the
+\* previous activity held was given back.  Deliberately independent of the guards of HiveCore: whatever the code
+\* accepts, it must accept completely.
+Tokens(S, v) ==
+  LET r == S.veh[v] IN
+  CASE r.act = "ChargingStation" -> {<<"plug", r.tgt, r.plug>>}
+    [] r.act = "ChargeQueueing"  -> {<<"queue", r.tgt, r.plug>>}
+    [] r.act = "ReserveBase"     -> {<<"stall", r.tgt, None>>}
+    [] r.act = "ChargingBase"    -> {<<"stall", r.tgt, None>>, <<"plug", BaseStation(S, r.tgt), r.plug>>}
+    [] r.act = "DispatchTrip"    -> {<<"req", r.tgt, None>>}
+    [] OTHER -> {}
+TokenExists(S, k) ==
+  CASE k[1] \in {"plug", "queue"} -> Installed(S, k[2], k[3])
+    [] k[1] = "stall" -> HasBs(S, k[2])
+    [] OTHER -> HasReq(S, k[2])
+\* how much of the resource is left (for a queue: minus its length), so that taking always lowers it by one
+TokenLevel(S, k) ==
+  CASE k[1] = "plug"  -> S.st[k[2]].pl[k[3]].av
+    [] k[1] = "queue" -> 0 - S.st[k[2]].pl[k[3]].qn
+    [] k[1] = "stall" -> S.bs[k[2]].stall
+    [] OTHER -> 0
+C09_Effects(S, T, v, out) ==
+  IF out # "applied" \/ v \notin DOMAIN S.veh \/ v \notin DOMAIN T.veh THEN {} ELSE
+  LET old == Tokens(S, v)  new == Tokens(T, v)
+      both(k) == TokenExists(S, k) /\ TokenExists(T, k) IN
+     {V("C09", "applied_with_all_side_effects", k[1] \o "_does_not_exist", v) : k \in {k \in new : ~TokenExists(T, k)}}
+  \cup {V("C09", "applied_with_all_side_effects", k[1] \o "_not_taken", v) : k \in {k \in new \ old :
+          both(k) /\ k[1] # "req" /\ TokenLevel(T, k) # TokenLevel(S, k) - 1}}
+  \cup {V("C09", "applied_with_all_side_effects", k[1] \o "_not_given_back", v) : k \in {k \in old \ new :
+          both(k) /\ k[1] # "req" /\ TokenLevel(T, k) # TokenLevel(S, k) + 1}}
+  \cup {V("C09", "applied_with_all_side_effects", k[1] \o "_changed", v) : k \in {k \in old \cap new :
+          both(k) /\ k[1] # "req" /\ TokenLevel(T, k) # TokenLevel(S, k)}}
+  \cup {V("C09", "applied_with_all_side_effects", "request_not_assigned", v) : k \in {k \in new :
+          k[1] = "req" /\ HasReq(T, k[2]) /\ T.req[k[2]].disp # v}}
+  \cup {V("C09", "applied_with_all_side_effects", "request_not_released", v) : k \in {k \in old \ new :
+          k[1] = "req" /\ HasReq(T, k[2]) /\ T.req[k[2]].disp = v}}
+
 -----------------------------------------------------------------------------
 (* C04 - vehicle energy stays physical and fully accounted for.                                          *)
 (* Quantities are fixed point (1e-3 kWh / gallon).  Strict comparisons use the booleans the tracer       *)
